@@ -1024,6 +1024,23 @@ func fatRefill(fr *fatRun, fs filesystem.FileSystem, cs int, step func(fsdrive.O
 			}
 			if drv.History[len(drv.History)-1].Err != "" {
 				res.Mark("filled to the last cluster")
+				// with not a cluster left: the calls that need one are refused and must leave no trace, and a
+				// handle that was refused a growing write goes on being used
+				if cyc == 0 && len(names) > 2 {
+					for _, op := range []fsdrive.Op{
+						{Kind: "mkdir", Path: "fill/nodir"}, {Kind: "mkdir", Path: "nodir2"}, {Kind: "create", Path: "fill/empty_when_full.bin"},
+						{Kind: "open", Path: names[1], H: 0, Flag: os.O_RDWR}, {Kind: "hseek", H: 0, Off: 1},
+						{Kind: "hwrite", H: 0, Len: 300 * cs, DSeed: 91}, {Kind: "hwrite", H: 0, Len: 0}, {Kind: "hseek", H: 0, Off: 0},
+						{Kind: "hwrite", H: 0, Len: 1, DSeed: 92}, {Kind: "hclose", H: 0},
+					} {
+						if !step(op) {
+							return
+						}
+					}
+					if !drv.Compare(fs, "live", nil) {
+						return
+					}
+				}
 				break
 			}
 			accepted += int64(cs)
